@@ -1,6 +1,6 @@
 (* Dispatch from a property number to its correspondence check (one entry point for extraction). *)
 From GoSST Require Import Base.Bytes Base.Sx.
-From GoSST Require Corr.C16 Corr.C14 Corr.C04 Corr.C12.
+From GoSST Require Corr.C16 Corr.C14 Corr.C04 Corr.C12 Corr.C20.
 
 Definition check_by_id (id : N) (s : sx) : bool :=
   match id with
@@ -8,5 +8,6 @@ Definition check_by_id (id : N) (s : sx) : bool :=
   | 12%N => C12.C12.check_sx s
   | 14%N => C14.C14.check_sx s
   | 16%N => C16.C16.check_sx s
+  | 20%N => C20.C20.check_sx s
   | _ => false
   end.
